@@ -128,7 +128,7 @@ package forkexec
 //@   loop 6: invariant #bv fs_ok()
 //@   loop 6: invariant #bv names_ok()
 //@   loop 7: invariant #int %mnt forall k int :: 0 <= k && k < len(old(r.Mounts)) ==> mount_entry_ok(k)
-//@   loop 7: invariant #bv exec_state_ok() && (K.last_trap == 59 || K.last_trap == 322)
+//@   loop 7: invariant #bv exec_state_ok() && (K.last_trap == 59 || K.last_trap == 322) && (K.stopped_self <==> child_stops(old(r)))
 //@   callsite syscall.RawSyscall6 when trap == 322: assert @C04 #bv caps_ok() && nnp_ok() && filter_ok() && creds_ok() && session_ok() && names_ok()
 //@   callsite syscall.RawSyscall6 when trap == 322: assert @C01 #bv filter_ok()
 //@   callsite syscall.RawSyscall when trap == 59: assert @C04 #bv caps_ok() && nnp_ok() && filter_ok() && creds_ok() && session_ok() && names_ok()
@@ -142,6 +142,8 @@ package forkexec
 //@   callsite syscall.RawSyscall6 when trap == 322: assert @C07 @C16 #bv sync_ok()
 //@   callsite syscall.RawSyscall when trap == 59: assert @C07 @C16 #bv sync_ok()
 //@   callsite syscall.RawSyscall6 when trap == 322: assert @C06 @C13 #bv a1 == execFile && a2 == addr(elemaddr(empty, 0)) && a5 == 4096
+//@   callsite syscall.RawSyscall6 when trap == 322: assert @C07 #bv K.stopped_self <==> child_stops(old(r))
+//@   callsite syscall.RawSyscall when trap == 59: assert @C07 #bv K.stopped_self <==> child_stops(old(r))
 //@   callsite childExitError: assert @C07 #bv loc_ok(int(loc), K.last_trap)
 //@   callsite childExitErrorWithIndex: assert @C07 #bv loc_ok(int(loc), K.last_trap)
 //@   callsite childExitErrorWithIndex: assert @C07 #int idx == i
@@ -286,6 +288,11 @@ package forkexec
 //@   ensures @C10 S.cb_calls == old(S.cb_calls) + 1 && old(P.st) == 2 ==> (result.1 == nil ==> P.st == 5) && (result.1 != nil ==> P.st == 4 || P.st == 5 || P.st == 9)
 //@   ensures @C10 S.cb_calls == old(S.cb_calls) + 1 && old(P.st) != 2 ==> P.st == old(P.st)
 //@   callsite funcvalue:pkg/forkexec.Runner.SyncFunc: assert @C07 (n == 8 || n == 24) && childErr.Err == 0 && err == nil && cbpid == pid
+//@   callsite go:pkg/forkexec.syncWithChild$1: assert @C07 child_stops(r)
+
+// The child stops itself (SIGSTOP) before the remaining steps exactly in these configurations (asserted of the
+// child's code at its exec point); only then may the launcher return without having read the exec result.
+//@ macro child_stops(r) = r.StopBeforeSeccomp || (r.Seccomp != nil && r.Ptrace)
 
 // the goroutine that picks up a late error of a ptraced child owns and closes the read end
 //@ func go:pkg/forkexec.syncWithChild$1
